@@ -11,7 +11,7 @@ EXPLANATION = ('Object, PSF and transfer-function arrays have independent symbol
                'product; callables of (fx,fy,fr,ft) are polynomial maps of the exact frequency grids. For the MTF the PSF samples are '
                'non-negative field-level symbols: MTF[n//2]=1, point symmetry, OTF = MTF*exp(i*PTF), and MTF<=1 as a solver-decided inequality.')
 BOUNDS = {'quick': "conv / transfer functions: shapes in [1..4]^2 (subset incl. non-square, odd/even); MTF identities shapes up to 3x3, inequality up to 2x3; the library's jitter transfer function as a callable in lists (2x3); OTF/MTF/PTF on 4x2 and 2x4",
-          'thorough': 'the quick shapes plus 1x3, 3x1, 2x4, 4x2, 1x5, 5x1; MTF identities up to 4x4, inequality up to 3x3; library callables on 3 shapes'}
+          'thorough': 'the quick set plus convolution / transfer-function algebra on 1x3, 3x1, 2x4, 4x2, 1x5, 5x1 (MTF <= 1 on 3x3 and 4x4 convolutions did not finish in 25 minutes)'}
 OUTSIDE = 'degredations.py, objects.py, detector.olpf_ft/pixel_ft (consumers of the same routines); float rounding'
 NDERIVED = 40
 MAX_PATHS = 8
@@ -30,12 +30,12 @@ def configs(tier):
         for shift in (True, False):
             out.append({'name': 'tf-%dx%d-%s' % (m, n, 'shifted' if shift else 'unshifted'), 'kind': 'tf', 'shape': [m, n], 'shift': shift})
     # the library's own transfer functions as callables in one list (they are handed the same frequency arrays)
-    for (m, n) in ([(2, 3)] if q else [(2, 3), (3, 3), (3, 2)]):
+    for (m, n) in [(2, 3)]:
         out.append({'name': 'tf-library-callables-%dx%d' % (m, n), 'kind': 'tflib', 'shape': [m, n]})
     # (4x2, 2x4: per-axis different n//2)
-    for (m, n) in ([(1, 2), (2, 2), (2, 3), (3, 2), (3, 3), (4, 2), (2, 4)] if q else [(1, 2), (2, 2), (2, 3), (3, 2), (3, 3), (4, 2), (2, 4), (3, 4), (4, 4)]):
+    for (m, n) in [(1, 2), (2, 2), (2, 3), (3, 2), (3, 3), (4, 2), (2, 4)]:
         out.append({'name': 'mtf-%dx%d' % (m, n), 'kind': 'mtf', 'shape': [m, n]})
-    for (m, n) in ([(1, 2), (2, 2), (1, 3), (2, 3)] if q else [(1, 2), (2, 2), (1, 3), (2, 3), (3, 3)]):
+    for (m, n) in [(1, 2), (2, 2), (1, 3), (2, 3)]:
         out.append({'name': 'mtf-le-1-%dx%d' % (m, n), 'kind': 'mtf_le', 'shape': [m, n]})
     return out
 
